@@ -10,7 +10,7 @@ use refimpl as r;
 fn budget(t: Tier) -> u64 {
     match t {
         Tier::Quick => 17_000,
-        Tier::Thorough => 400_000,
+        Tier::Thorough => 800_000,
     }
 }
 
